@@ -360,75 +360,6 @@ Proof.
     subst names. rewrite map_length. reflexivity.
 Qed.
 
-(* ================================================================= operation ids *)
-Lemma dedup_ops_go_length : forall ids seen, length (dedup_ops_go seen ids) = length ids.
-Proof.
-  induction ids as [|id r IH]; intro seen; simpl; [reflexivity|].
-  destruct (alookup (method_name id) seen); simpl; rewrite IH; reflexivity.
-Qed.
-
-(* none dropped, order kept, every new id extends the old one *)
-Theorem dedup_ops_prefix : forall ids,
-  Forall2 (fun old new => prefixb old new = true) ids (dedup_ops ids).
-Proof.
-  intro ids. unfold dedup_ops. generalize (@nil (str * N)).
-  assert (P : forall a b, prefixb a (a ++ b) = true).
-  { induction a as [|x a IH]; intro b; simpl; [reflexivity|]. rewrite N.eqb_refl. apply IH. }
-  induction ids as [|id r IH]; intro seen; simpl; [constructor|].
-  destruct (alookup (method_name id) seen); constructor; try apply IH.
-  - apply P.
-  - rewrite <- (app_nil_r id) at 2. apply P.
-Qed.
-
-(* keys of the counter map = method names seen so far *)
-Lemma alookup_none_not_in : forall {V} (d : list (str * V)) k, alookup k d = None -> ~ In k (map fst d).
-Proof.
-  induction d as [|[k' v] d IH]; intros k H; simpl in *; [tauto|].
-  destruct (str_eqb k k') eqn:E; [discriminate|]. apply str_eqb_neq in E.
-  intros [Hk|Hk]; [congruence | exact (IH k H Hk)].
-Qed.
-Lemma alookup_in_none : forall {V} (d : list (str * V)) k, ~ In k (map fst d) -> alookup k d = None.
-Proof.
-  induction d as [|[k' v] d IH]; intros k H; simpl in *; [reflexivity|].
-  destruct (str_eqb k k') eqn:E.
-  - apply str_eqb_eq in E. subst. exfalso. apply H. left. reflexivity.
-  - apply IH. tauto.
-Qed.
-Lemma aset_keys_new : forall {V} (d : list (str * V)) k v, alookup k d = None -> map fst (aset d k v) = map fst d ++ [k].
-Proof.
-  induction d as [|[k' v'] d IH]; intros k v H; simpl in *; [reflexivity|].
-  destruct (str_eqb k k'); [discriminate|]. simpl. rewrite IH by exact H. reflexivity.
-Qed.
-
-(* when the derived method names are already distinct the loop changes nothing *)
-Lemma dedup_ops_go_id : forall ids seen,
-  NoDup (map method_name ids) -> (forall id, In id ids -> ~ In (method_name id) (map fst seen)) ->
-  dedup_ops_go seen ids = ids.
-Proof.
-  induction ids as [|id r IH]; intros seen Hnd Hfresh; simpl; [reflexivity|].
-  rewrite (alookup_in_none seen _ (Hfresh id (or_introl eq_refl))).
-  inversion Hnd as [|? ? Hnotin Hnd']; subst. f_equal. apply IH; [exact Hnd'|].
-  intros id' Hin. rewrite aset_keys_new by (apply alookup_in_none, Hfresh; left; reflexivity).
-  intro H. apply in_app_or in H. destruct H as [H|[H|[]]].
-  - apply (Hfresh id' (or_intror Hin)). exact H.
-  - apply Hnotin. rewrite H. apply in_map. exact Hin.
-Qed.
-
-Theorem dedup_ops_fixpoint : forall ids, NoDup (map method_name ids) -> dedup_ops ids = ids.
-Proof. intros ids H. apply dedup_ops_go_id; [exact H | intros id _ []]. Qed.
-
-(* idempotent whenever the first pass achieved distinct method names (i.e. outside F07a) *)
-Theorem dedup_ops_idempotent_partial : forall ids,
-  NoDup (map method_name (dedup_ops ids)) -> dedup_ops (dedup_ops ids) = dedup_ops ids.
-Proof. intros ids H. apply dedup_ops_fixpoint, H. Qed.
-
-Definition w_F07a : list str := [[102;111;111]; [102;111;111]; [102;111;111;95;50]].   (* foo, foo, foo_2 *)
-Lemma refuted_F07a :
-  guard_F07a w_F07a = false
-  /\ nodupb (map method_name (dedup_ops w_F07a)) = false
-  /\ dedup_ops (dedup_ops w_F07a) <> dedup_ops w_F07a.
-Proof. split; [|split]; vm_compute; [reflexivity | reflexivity | discriminate]. Qed.
-
 (* ================================================================= endpoint parameters *)
 Lemma nodupb_NoDup : forall l, nodupb l = true <-> NoDup l.
 Proof.
@@ -593,104 +524,90 @@ Proof.
   rewrite Hm1. rewrite not_kw_res_us_digits by (apply ends_us_digits_app; assumption). reflexivity.
 Qed.
 
-(* the counter bucket (= method name) of an id is a function of the digit-prefixed core [q] *)
-Definition bucket (q : str) : str :=
-  let q' := match q with [] => digit_pre s_unnamed | _ => q end in
-  if is_kw q' || is_reserved q' then q' ++ [95] else q'.
-Lemma method_name_as_pre : forall id, method_name id = bucket (digit_pre (method_core id)).
+(* ---- the suffixed candidates of one id have pairwise distinct method names ---- *)
+Lemma op_cand_inj : forall id, injective (fun j => method_name (op_suffixed id j)).
 Proof.
-  intro id. unfold method_name, finish_snake, bucket, digit_pre.
-  destruct (method_core id) as [|c m]; [reflexivity|]. cbn [or_unnamed].
-  destruct (starts_digit (c :: m)); reflexivity.
+  intros id i j H. unfold op_suffixed in H. cbn [app] in H.
+  rewrite !method_name_app in H by (apply dec_digits || apply dec_nonempty).
+  apply app_inv_head in H. inversion H as [H']. apply dec_inj in H'. lia.
 Qed.
 
-Definition count_of (seen : list (str * N)) (m : str) : N := match alookup m seen with Some c => c | None => 0 end.
-
-(* shape of every derived method name after the pass, relative to the counter map it started from *)
-Definition out_shape (seen : list (str * N)) (n : str) : Prop :=
-  (ends_us_digits n = false /\ alookup n seen = None)
-  \/ (exists q k, n = q ++ 95 :: dec k
-        /\ count_of seen (bucket q) < k).
-
-Lemma count_of_aset_same : forall seen m c, count_of (aset seen m c) m = c.
-Proof. intros. unfold count_of. rewrite alookup_aset_same. reflexivity. Qed.
-Lemma count_of_aset_other : forall seen m c m', m' <> m -> count_of (aset seen m c) m' = count_of seen m'.
-Proof. intros. unfold count_of. rewrite alookup_aset_other by assumption. reflexivity. Qed.
-
-Lemma out_shape_weaken : forall seen m c n,
-  count_of seen m <= c -> out_shape (aset seen m c) n -> n <> m -> out_shape seen n.
+Lemma pick_idx_fresh : forall fuel cand i seen, pick_fresh fuel cand i seen = cand (pick_idx fuel cand i seen).
 Proof.
-  intros seen m c n Hle [[H1 H2]|[q [k [E Hk]]]] Hne.
-  - left. split; [exact H1|]. rewrite alookup_aset_other in H2 by exact Hne. exact H2.
-  - right. exists q, k. split; [exact E|].
-    assert (Hm' : forall m', count_of (aset seen m c) m' < k -> count_of seen m' < k).
-    { intros m' H. destruct (str_eq_dec m' m) as [Heq|Hd].
-      - subst m'. rewrite count_of_aset_same in H. lia.
-      - rewrite count_of_aset_other in H by exact Hd. exact H. }
-    apply Hm', Hk.
+  induction fuel as [|f IH]; intros cand i seen; simpl; [reflexivity|].
+  destruct (mem_str (cand i) seen); [apply IH | reflexivity].
 Qed.
 
-Lemma dedup_ops_go_inv : forall ids seen,
-  guard_F07a ids = true ->
-  NoDup (map method_name (dedup_ops_go seen ids))
-  /\ Forall (out_shape seen) (map method_name (dedup_ops_go seen ids)).
+Lemma mem_str_false : forall x l, mem_str x l = false -> ~ In x l.
+Proof. intros x l H Hin. apply mem_str_In in Hin. congruence. Qed.
+
+Lemma dedup_ops_go_length : forall ids used, length (dedup_ops_go used ids) = length ids.
 Proof.
-  induction ids as [|id r IH]; intros seen G; [split; constructor|].
-  unfold guard_F07a in G. cbn [forallb] in G. apply andb_true_iff in G. destruct G as [Gid Gr].
-  apply negb_true_iff in Gid. fold (guard_F07a r) in Gr.
-  cbn [dedup_ops_go]. set (m := method_name id) in *.
-  destruct (alookup m seen) as [c|] eqn:El.
-  - (* a repeated method name: the id is renamed *)
-    destruct (IH (aset seen m (c + 1)) Gr) as [Hnd Hsh].
-    cbn [map]. replace (id ++ [95] ++ dec (c + 1)) with (id ++ 95 :: dec (c + 1)) by reflexivity.
-    rewrite method_name_app by (apply dec_digits || apply dec_nonempty).
-    set (q := digit_pre (method_core id)).
-    assert (Hmq : m = bucket q) by (subst m q; apply method_name_as_pre).
-    set (n0 := q ++ 95 :: dec (c + 1)).
-    assert (Hn0 : ends_us_digits n0 = true) by (apply ends_us_digits_app; [apply dec_digits | apply dec_nonempty]).
-    assert (Hcnt : count_of seen m = c) by (unfold count_of; rewrite El; reflexivity).
-    split.
-    + constructor; [|exact Hnd]. intro Hin. rewrite Forall_forall in Hsh.
-      destruct (Hsh n0 Hin) as [[H1 _]|[q' [k [E Hk]]]]; [congruence|].
-      subst n0. apply app_inv_us_digits in E; [|apply dec_digits | apply dec_digits].
-      destruct E as [Eq Ek]. apply dec_inj in Ek. subst q' k. rewrite <- Hmq in Hk.
-      rewrite count_of_aset_same in Hk. lia.
-    + constructor.
-      * right. exists q, (c + 1). split; [reflexivity|]. rewrite <- Hmq, Hcnt. lia.
-      * rewrite Forall_forall in *. intros n Hn. apply (out_shape_weaken seen m (c + 1)); [lia | apply Hsh, Hn|].
-        intro E. subst n. destruct (Hsh m Hn) as [[_ H2]|[q' [k [E Hk]]]].
-        -- rewrite alookup_aset_same in H2. discriminate.
-        -- assert (Hm : ends_us_digits m = true) by (rewrite E; apply ends_us_digits_app; [apply dec_digits | apply dec_nonempty]).
-           congruence.
-  - (* first occurrence: the id is kept *)
-    destruct (IH (aset seen m 1) Gr) as [Hnd Hsh].
-    cbn [map]. fold m. split.
-    + constructor; [|exact Hnd]. intro Hin. rewrite Forall_forall in Hsh.
-      destruct (Hsh m Hin) as [[_ H2]|[q' [k [E Hk]]]].
-      * rewrite alookup_aset_same in H2. discriminate.
-      * assert (Hm : ends_us_digits m = true) by (rewrite E; apply ends_us_digits_app; [apply dec_digits | apply dec_nonempty]).
-        congruence.
-    + constructor.
-      * left. split; [exact Gid | exact El].
-      * rewrite Forall_forall in *. intros n Hn. apply (out_shape_weaken seen m 1); [unfold count_of; rewrite El; lia | apply Hsh, Hn|].
-        intro E. subst n. destruct (Hsh m Hn) as [[_ H2]|[q' [k [E Hk]]]].
-        -- rewrite alookup_aset_same in H2. discriminate.
-        -- assert (Hm : ends_us_digits m = true) by (rewrite E; apply ends_us_digits_app; [apply dec_digits | apply dec_nonempty]).
-           congruence.
+  induction ids as [|id r IH]; intro used; simpl; [reflexivity|].
+  destruct (mem_str (method_name id) used); simpl; rewrite IH; reflexivity.
 Qed.
 
-(* F07a excluded: when no derived method name already looks like "x_<digits>", one pass makes all method names of
-   the client pairwise distinct — for ANY number of operations and ANY ids — and a second pass changes nothing. *)
-Theorem dedup_ops_nodup_partial : forall ids, guard_F07a ids = true ->
-  NoDup (map method_name (dedup_ops ids)) /\ dedup_ops (dedup_ops ids) = dedup_ops ids.
+(* none dropped, order kept, every new id extends the old one *)
+Theorem dedup_ops_prefix : forall ids,
+  Forall2 (fun old new => prefixb old new = true) ids (dedup_ops ids).
 Proof.
-  intros ids G. destruct (dedup_ops_go_inv ids [] G) as [H _]. split; [exact H|].
-  apply dedup_ops_idempotent_partial, H.
+  intro ids. unfold dedup_ops. generalize (@nil str).
+  assert (P : forall a b, prefixb a (a ++ b) = true).
+  { induction a as [|x a IH]; intro b; simpl; [reflexivity|]. rewrite N.eqb_refl. apply IH. }
+  induction ids as [|id r IH]; intro used; simpl; [constructor|].
+  destruct (mem_str (method_name id) used); constructor; try apply IH.
+  - apply P.
+  - rewrite <- (app_nil_r id) at 2. apply P.
 Qed.
 
-Definition w_ops_ok : list str := [[102;111;111]; [70;111;111]; [102;111;111]; [99;108;97;115;115]; [99;108;97;115;115]].
-Lemma guard_F07a_nonvacuous : guard_F07a w_ops_ok = true /\ dedup_ops w_ops_ok <> w_ops_ok.
-Proof. split; vm_compute; [reflexivity | discriminate]. Qed.
+(* invariant: the method names produced are pairwise distinct and none of them was used before *)
+Lemma dedup_ops_go_inv : forall ids used,
+  NoDup (map method_name (dedup_ops_go used ids))
+  /\ forall n, In n (map method_name (dedup_ops_go used ids)) -> ~ In n used.
+Proof.
+  induction ids as [|id r IH]; intro used; [split; [constructor | intros n []]|].
+  cbn [dedup_ops_go]. destruct (mem_str (method_name id) used) eqn:E.
+  - set (cand := fun j => method_name (op_suffixed id j)).
+    set (k := pick_idx (S (length used)) cand 0 used).
+    assert (Hfresh : ~ In (cand k) used).
+    { subst k. rewrite <- pick_idx_fresh. apply pick_fresh_not_in. apply op_cand_inj. }
+    destruct (IH (cand k :: used)) as [Hnd Hout]. cbn [map]. fold (cand k). split.
+    + constructor; [|exact Hnd]. intro Hin. apply (Hout _ Hin). left. reflexivity.
+    + intros n [<-|Hn]; [exact Hfresh|]. intro Hu. apply (Hout n Hn). right. exact Hu.
+  - apply mem_str_false in E. destruct (IH (method_name id :: used)) as [Hnd Hout]. cbn [map]. split.
+    + constructor; [|exact Hnd]. intro Hin. apply (Hout _ Hin). left. reflexivity.
+    + intros n [<-|Hn]; [exact E|]. intro Hu. apply (Hout n Hn). right. exact Hu.
+Qed.
+
+(* F07a fixed: FULL — for ANY list of operation ids the method names of the client are pairwise distinct *)
+Theorem dedup_ops_nodup : forall ids, NoDup (map method_name (dedup_ops ids)).
+Proof. intro ids. apply (dedup_ops_go_inv ids []). Qed.
+
+(* when the derived method names are already distinct (and unused) the loop changes nothing *)
+Lemma dedup_ops_go_id : forall ids used,
+  NoDup (map method_name ids) -> (forall id, In id ids -> ~ In (method_name id) used) ->
+  dedup_ops_go used ids = ids.
+Proof.
+  induction ids as [|id r IH]; intros used Hnd Hfresh; [reflexivity|]. cbn [dedup_ops_go].
+  assert (E : mem_str (method_name id) used = false).
+  { destruct (mem_str (method_name id) used) eqn:E; [|reflexivity]. apply mem_str_In in E.
+    exfalso. exact (Hfresh id (or_introl eq_refl) E). }
+  rewrite E. inversion Hnd as [|? ? Hnotin Hnd']; subst. f_equal. apply IH; [exact Hnd'|].
+  intros id' Hin [H|H].
+  - apply Hnotin. rewrite H. apply in_map. exact Hin.
+  - exact (Hfresh id' (or_intror Hin) H).
+Qed.
+
+(* ... hence idempotent: the second pass that `emit` runs under --force renames nothing *)
+Theorem dedup_ops_idempotent : forall ids, dedup_ops (dedup_ops ids) = dedup_ops ids.
+Proof. intro ids. apply dedup_ops_go_id; [apply dedup_ops_nodup | intros id _ []]. Qed.
+
+Definition w_F07a : list str := [[102;111;111]; [102;111;111]; [102;111;111;95;50]].   (* foo, foo, foo_2 *)
+Lemma fixed_F07a :
+  dedup_ops w_F07a = [[102;111;111]; [102;111;111;95;50]; [102;111;111;95;50;95;50]]       (* foo, foo_2, foo_2_2 *)
+  /\ nodupb (map method_name (dedup_ops w_F07a)) = true
+  /\ dedup_ops (dedup_ops w_F07a) = dedup_ops w_F07a.
+Proof. repeat split; vm_compute; reflexivity. Qed.
 
 (* ================================================================= component schemas in the loader *)
 Lemma build_keys_go_spec : forall raw keys i,
